@@ -11,7 +11,8 @@
 From Coq Require Import List Arith Bool.
 Import ListNotations.
 From SV Require Import Base.Ops Base.OpsGeom Base.Arr Base.Sums Model.Vec3 Model.Exchange Model.Scene
-  Model.PtSolution Spec.Isometry Proofs.PtUpper Proofs.PtVertexOrder Proofs.PtSimilarity.
+  Model.PtSolution Spec.Isometry Proofs.PtUpper Proofs.PtVertexOrder Proofs.PtSimilarity
+  Model.Tiling Model.Full Proofs.FullShoebox.
 
 (** (1) the share of any polygon with at least three vertices is at most one half:
     every interior angle is an [acos], hence [<= pi], so the excess is [<= 2 pi]. *)
@@ -119,3 +120,23 @@ Proof.
   exact (conj (visible_share thr sc pos vis patches j b) (share_lower_weak thr pos (nth j patches []))).
 Qed.
 Print Assumptions C04_partial.
+
+(** (6) in a genuine shoebox room the hidden-patch clause (2) is vacuous for an interior source or
+    receiver: every patch is visible from every point strictly inside the box (farther than eps and
+    eta from the six wall planes), so each patch receives attenuation times its share (5).
+    [is_shoebox], [sb_tolerances]: see C07_is_shoebox_unfold / C07_sb_tolerances_unfold in
+    Properties/C07.v (the room of [sp.testing.shoebox_room_stub]; 2 eps, 2 eta < patch size);
+    [sb_inside]: eps, eta < inward distance from each of the six wall planes
+    (C07_shoebox_point_visibility spells it out). *)
+Theorem C04_shoebox_all_patches_visible {T} {O : Ops T} {RL : RingLaws T} {OL : OrderLaws T}
+    {FL : FieldLaws T} {FlL : FloorLaws T} {SL : SqrtLaws T}
+    (rm : @room T) (x0 x1 y0 y1 z0 z1 : T) (pos : @vec T) :
+  is_shoebox rm x0 x1 y0 y1 z0 z1 -> sb_tolerances rm -> sb_inside rm x0 x1 y0 y1 z0 z1 pos ->
+  forall k, k < rm_np rm ->
+    nthb (src_vis (room_source rm pos)) k = true /\ nthb (r_vis (room_receiver rm pos)) k = true.
+Proof.
+  exact (fun Hsb Htol Hpos k Hk =>
+           conj (shoebox_point_visibility rm x0 x1 y0 y1 z0 z1 pos Hsb Htol Hpos k Hk)
+                (shoebox_point_visibility rm x0 x1 y0 y1 z0 z1 pos Hsb Htol Hpos k Hk)).
+Qed.
+Print Assumptions C04_shoebox_all_patches_visible.
